@@ -153,7 +153,9 @@ void SelectLoop::removeInvalidFds()
         if (!IsFdValid(fd)) {
             LogWarn("fd:%d is invalid", fd);
             SelectFdSharedData *data = item.second;
-            for (auto event : data->fd_events) {
+            //! 要先复制一份，因为disable()会将event从data->fd_events中删除，引起迭代器失效
+            auto tmp = data->fd_events;
+            for (auto event : tmp) {
                 event->disable();
             }
         }
